@@ -61,10 +61,10 @@ UNITS = [inspected]
 # ----------------------------------------------------------------------------- guards, evaluated on representatives
 REPRESENTATIVES = [
     # (label, module source, name that must NOT be inferred safe)
-    ("decorated-function", "def deco(fn):\n    return fn\n\n\n@deco\ndef h():\n    return 1\n", "h"),
+    ("decorated-function", "def deco(fn):\n    def wrapper():\n        print(1)\n        return fn()\n\n    return wrapper\n\n\n@deco\ndef h():\n    return 1\n", "h"),
     ("name-is-also-a-parameter", "def h():\n    return 1\n\n\ndef g(h):\n    return 2\n", "h"),
-    ("name-is-defined-twice", "def h():\n    return 1\n\n\ndef h():\n    return 2\n", "h"),
-    ("name-is-also-a-method", "def h():\n    return 1\n\n\nclass A:\n    def h(self):\n        return 2\n", "h"),
+    ("name-is-defined-twice", "def h():\n    return 1\n\n\ndef h():\n    print(2)\n", "h"),
+    ("name-is-also-a-method", "def h():\n    print(1)\n\n\nclass A:\n    def h(self):\n        return 2\n", "h"),
     ("name-is-also-assigned", "def h():\n    return 1\n\n\nh = print\n", "h"),
     ("name-is-also-imported", "def h():\n    return 1\n\n\nfrom os import sep as h\n", "h"),
     ("name-is-also-an-exception-name", "def h():\n    return 1\n\n\ntry:\n    pass\nexcept Exception as h:\n    pass\n", "h"),
@@ -75,7 +75,7 @@ REPRESENTATIVES = [
     ("function-returns-a-call-of-unknown", "def h(obs):\n    return obs(1)\n", "h"),
     ("class-with-a-base", "import other\n\n\nclass K(other.Base):\n    pass\n", "K"),
     ("class-with-a-metaclass", "class M(type):\n    pass\n\n\nclass K(metaclass=M):\n    pass\n", "K"),
-    ("decorated-class", "def deco(c):\n    return c\n\n\n@deco\nclass K:\n    pass\n", "K"),
+    ("decorated-class", "def deco(c):\n    def make():\n        print(1)\n        return c()\n\n    return make\n\n\n@deco\nclass K:\n    pass\n", "K"),
     ("class-whose-constructor-calls-unknown", "class K:\n    def __init__(self, obs):\n        obs(1)\n", "K"),
     ("class-whose-new-calls-unknown", "class K:\n    def __new__(cls, obs):\n        obs(1)\n        return super().__new__(cls)\n", "K"),
 ]
